@@ -36,9 +36,55 @@ func conjuncts(s string, depth int, out *[]string) {
 	}
 }
 
+var defFunRe = regexp.MustCompile(`^\(define-fun ([A-Za-z0-9_!.]+) \(\) [^ ]+ (.*)\)$`)
+var identRe = regexp.MustCompile(`[A-Za-z_][A-Za-z0-9_!.]*`)
+
+// expandDefs replaces nullary define-fun names by their bodies (a few rounds), so that `j` and the
+// term it abbreviates compare equal.
+func expandDefs(s string, defs map[string]string) string {
+	for round := 0; round < 4; round++ {
+		changed := false
+		s = identRe.ReplaceAllStringFunc(s, func(id string) string {
+			if b, ok := defs[id]; ok && len(b) < 400 {
+				changed = true
+				return b
+			}
+			return id
+		})
+		if !changed || len(s) > 200000 {
+			break
+		}
+	}
+	return s
+}
+
 func syntacticallyAssumed(o *Obligation) bool {
 	if o.Cover || o.Raw != "" || o.goal == "" || o.goal == "raw" {
 		return false
+	}
+	if syntacticMatch(o, nil) {
+		return true
+	}
+	defs := map[string]string{}
+	for d := o.defs; d != nil; d = d.prev {
+		if strings.HasPrefix(d.line, "(define-fun ") && !strings.Contains(d.line, "Array") {
+			if m := defFunRe.FindStringSubmatch(strings.TrimSpace(d.line)); m != nil {
+				defs[m[1]] = m[2]
+			}
+		}
+	}
+	if len(defs) == 0 {
+		return false
+	}
+	return syntacticMatch(o, defs)
+}
+
+func syntacticMatch(o *Obligation, defs map[string]string) bool {
+	norm := func(s string) string {
+		if defs != nil {
+			s = expandDefs(s, defs)
+		}
+		return alphaNorm(s)
 	}
 	goals := []string{o.goal}
 	if args, ok := sexprArgs(o.goal); ok && args[0] == "=>" && len(args) == 3 {
@@ -49,7 +95,7 @@ func syntacticallyAssumed(o *Obligation) bool {
 		if len(g) < 40 {
 			continue // tiny goals are cheap for the solver; keep this path for the large quantified ones
 		}
-		want[alphaNorm(g)] = true
+		want[norm(g)] = true
 	}
 	if len(want) == 0 {
 		return false
@@ -63,7 +109,7 @@ func syntacticallyAssumed(o *Obligation) bool {
 		var cs []string
 		conjuncts(body, 0, &cs)
 		for _, c := range cs {
-			if len(c) >= 40 && want[alphaNorm(c)] {
+			if len(c) >= 40 && want[norm(c)] {
 				return true
 			}
 		}
